@@ -64,7 +64,7 @@ CHECKS = {
         },
         "runs": [seq("HarnessC01T1", ["c01-end"]), seq("HarnessC01T2", ["c01-end"]), seq("HarnessC01T3L1", ["c01-end"], ["quick"]),
                  seq("HarnessC01T4L1", ["c01-end"], ["quick"]), seq("HarnessC01T5", ["c01-end"]), seq("HarnessC01T6", ["c01-end"]),
-                 seq("HarnessC01T7", ["c01-end"]), seq("HarnessC01T8", ["c01-end"], ["quick"]), seq("HarnessC01T8L2", ["c01-end"], ["thorough"]), conc("HarnessC02History2", ["c02-hist-end"]), seq("HarnessC01Gen2", ["c01-gen-end"]),
+                 seq("HarnessC01T7", ["c01-end"]), seq("HarnessC01T8", ["c01-end"], ["quick"]), seq("HarnessC01T8L2", ["c01-end"], ["thorough"]), seq("HarnessC01T9", ["c01-end"]), conc("HarnessC02History2", ["c02-hist-end"]), conc("HarnessC05Seq", ["c05-end"]), seq("HarnessC01Gen2", ["c01-gen-end"]),
                  seq("HarnessC01Gen2L2", ["c01-gen-end"], ["thorough"]), seq("HarnessC01Gen3", ["c01-gen-end"], ["thorough"]), seq("HarnessC01T3", ["c01-end"], ["thorough"]), seq("HarnessC01T4", ["c01-end"], ["thorough"]),
                  seq("HarnessC01T2L3", ["c01-end"], ["thorough"]), seq("HarnessC01T7L3", ["c01-end"], ["thorough"])],
         "bounds": {"quick": "8 types (scalars/durations, skipped fields in every position, nested+pointer+embedded structs, slices/maps/arrays, user pointers incl. two leaves aliasing one variable in the defaults, text-unmarshalable value+pointer, deep nesting, pointer-bearing arrays in slices / struct map keys holding pointers / pointer to an all-nilable struct); 2 layers (1 for the two biggest types); slices len<=2, maps <=1 entry; all scalar values; generated family: all 12+144 types of 1-2 fields over {int8,string,[]int16,map,*int,struct,*struct,[2]uint8,dials:\"-\",chan,func,text-unmarshalable}, 1 layer",
@@ -79,7 +79,7 @@ CHECKS = {
             "design_ref": "DESIGN.md §4 C02",
         },
         "runs": [conc("HarnessC02History2", ["c02-hist-end"]), seq("HarnessC01T4L1", ["c01-end"], ["quick"]), seq("HarnessC01T3L1", ["c01-end"], ["quick"]),
-                 seq("HarnessC01T6", ["c01-end"]), seq("HarnessC01T5", ["c01-end"]), seq("HarnessC01T8", ["c01-end"], ["quick"]), seq("HarnessC01T8L2", ["c01-end"], ["thorough"]), conc("HarnessC02History3", ["c02-hist-end"], ["thorough"]),
+                 seq("HarnessC01T6", ["c01-end"]), seq("HarnessC01T5", ["c01-end"]), seq("HarnessC01T8", ["c01-end"], ["quick"]), seq("HarnessC01T8L2", ["c01-end"], ["thorough"]), seq("HarnessC01T9", ["c01-end"]), conc("HarnessC02History3", ["c02-hist-end"], ["thorough"]),
                  seq("HarnessC01T4", ["c01-end"], ["thorough"]), seq("HarnessC01T3", ["c01-end"], ["thorough"])],
         "bounds": {"quick": "corpus types T3,T4,T5,T6,T8 with 1-2 layers (identity sets include map keys); 2 re-stacks with symbolic set/unset of a nested-pointer leaf and a scalar",
                    "thorough": "2 layers on T3/T4; 3 re-stacks"},
@@ -109,7 +109,7 @@ CHECKS = {
         },
         "runs": [conc("HarnessC04Quick", ["c04-end", "c04-config-rejected"]), conc("HarnessC04NonBlocking", ["c04-end"]),
                  {"entry": M + "/sourcewrap.HarnessC04Wrapped", "pkgs": SW, "must_reach": ["c04-wrapped-end"], "instrument": [M, M + "/sourcewrap"], "validate": 0},
-                 conc("HarnessC04Thorough", ["c04-end"], ["thorough"])],
+                 conc("HarnessC07Quick", ["c07-end"]), conc("HarnessC04Thorough", ["c04-end"], ["thorough"])],
         "bounds": {"quick": "1 watching source, 2 updates (blocking and plain), reader with 2 reads; 2 blocking reports of arbitrary validity through a transforming source; all schedules", "thorough": "3 updates"},
         "outside": "more updates/sources; callback queue overflow (64) is not reached",
         "assumptions": CONC_ASSUME,
@@ -120,7 +120,7 @@ CHECKS = {
             "note": "the receive order is a ghost log appended in the same atomic step as the rendezvous with the monitor",
             "design_ref": "DESIGN.md §4 C05",
         },
-        "runs": [conc("HarnessC05Quick", ["c05-end"]), conc("HarnessC05Seq", ["c05-end"]),
+        "runs": [conc("HarnessC05Quick", ["c05-end"]), conc("HarnessC05Seq", ["c05-end"]), conc("HarnessC05AfterDone", ["c05-done-end"]),
                  conc("HarnessC05Thorough", ["c05-end"], ["thorough"], maxpaths=1000000, timeout=3000), conc("HarnessC05Three", ["c05-end"], ["thorough"], maxpaths=1000000, timeout=3000)],
         "bounds": {"quick": "2 sources; 1+1 reports with 2 concurrent reads, 2+1 reports without reader; a nested pointer section set or not by the first update; all values symbolic; all schedules",
                    "thorough": "2+2 reports with 2 reads; 3+1 reports with 1 read"},
@@ -134,9 +134,9 @@ CHECKS = {
             "design_ref": "DESIGN.md §4 C06",
         },
         "runs": [conc("HarnessC06Quick", ["c06-end"]), conc("HarnessC06Unregister", ["c06-end"]), conc("HarnessC06NoGlobal", ["c06-end"]),
-                 conc("HarnessC06UnregisterShutdown", ["c06-shutdown-end"]), conc("HarnessC06DrainOnCancel", ["c06-drain-end"]), conc("HarnessC06Thorough", ["c06-end"], ["thorough"])],
+                 conc("HarnessC06UnregisterShutdown", ["c06-shutdown-end"]), conc("HarnessC06DrainOnCancel", ["c06-drain-end"]), conc("HarnessC06AfterOverflow", ["c06-overflow-end"]), conc("HarnessC06Thorough", ["c06-end"], ["thorough"])],
         "bounds": {"quick": "2 installs, 1 registrar (3 serial modes), optional unregister; with and without global callbacks; unregister racing with a slow callback and the watcher's Done; all schedules", "thorough": "3 installs, slow callbacks"},
-        "outside": "drop-on-overflow (queue of 64 never fills); several registrars",
+        "outside": "which versions are dropped on overflow (only the behaviour after one overflow is checked); several registrars",
         "assumptions": CONC_ASSUME,
     },
     "C07": {
@@ -147,7 +147,8 @@ CHECKS = {
         },
         "runs": [conc("HarnessC07Quick", ["c07-end"]), conc("HarnessC07Second", ["c07-end"]),
                  {"entry": M + "/sourcewrap.HarnessC04Wrapped", "pkgs": SW, "must_reach": ["c04-wrapped-end"], "instrument": [M, M + "/sourcewrap"], "validate": 0},
-                 {"entry": M + "/sourcewrap.HarnessC20BlankContexts", "pkgs": SW, "must_reach": ["c20-blank-ctx-end", "c20-blank-late-end", "c20-blank-eager-end"], "instrument": [M, M + "/sourcewrap"], "validate": 0}],
+                 {"entry": M + "/sourcewrap.HarnessC20BlankContexts", "pkgs": SW, "must_reach": ["c20-blank-ctx-end", "c20-blank-late-end", "c20-blank-eager-end"], "instrument": [M, M + "/sourcewrap"], "validate": 0},
+                 {"entry": M + "/sourcewrap.HarnessC20Blank", "pkgs": SW, "must_reach": ["c20-blank-end", "c20-blank-done"], "instrument": [M, M + "/sourcewrap"], "validate": 0}],
         "bounds": {"quick": "1 blocking report + canceller goroutine (+1 plain report); 2 blocking reports of arbitrary validity through a transforming source; Blank.SetSource with its own context, also after Done; all schedules", "thorough": "same"},
         "outside": "several concurrent blocking reporters",
         "assumptions": CONC_ASSUME,
@@ -161,6 +162,7 @@ CHECKS = {
         "runs": [conc("HarnessC08Quick", ["c08-end"]), conc("HarnessC08Seq2", ["c08-end"]), conc("HarnessC08DoubleUnregister", ["c08-double-unreg-end"]),
                  conc("HarnessC08LateCalls", ["c08-late-end"]), conc("HarnessC08BlockedCallback", ["c08-blocked-end"]), conc("HarnessC08BlockingCancel", ["c08-blocking-cancel-end"]),
                  conc("HarnessC08TwoWatchers", ["c08-two-watchers-end"]), conc("HarnessC08PendingUnregister", ["c08-pending-unreg-end"]),
+                 {"entry": M + "/sourcewrap.HarnessC20BlankContexts", "pkgs": SW, "must_reach": ["c20-blank-ctx-end", "c20-blank-late-end", "c20-blank-eager-end"], "instrument": [M, M + "/sourcewrap"], "validate": 0},
                  conc("HarnessC08Thorough", ["c08-end"], ["thorough"], maxpaths=3000000)],
         "bounds": {"quick": "2 callers x 1 op, 2 sequential ops, 8-op alphabet, delay on/off; two watchers finishing in either order or concurrently; an unregistration pending (optionally behind a stuck callback) at shutdown; all schedules", "thorough": "2+1 ops; blocked-callback run of 67 updates"},
         "outside": "longer operation sequences; more than 2 callers",
@@ -221,7 +223,7 @@ CHECKS = {
     "C10": {
         "claim": {'text': 'bounded model checking of the real transformer and manglers: translate, write a symbolic subset of the translated fields, reverse: set-to-slice at three depths (nil/empty/elements), flatten (every subset of 9 flattened leaves incl. nested, pointer-nested, embedded, trailing), and five mangler lists (anonymous-flatten, text-unmarshaler, alias+set-slice, and two combinations): result has exactly the original type, every original leaf holds what was written to its counterpart, everything else is unset', 'note': 'expected translated field names are written by hand in the harness; the alias, tag-copy, tag-reformat, string-cast manglers are exercised in their shipped chains by C11/C12/C14/C20; type substitution (durations for JSON/Cue) is not covered', 'design_ref': 'DESIGN.md §4 C10'},
         "bounds": {'quick': '1 config type with 9 fields (scalars, set, nested, pointer-nested, embedded, text-unmarshalable, duration, slice); all subsets of written fields; 7 mangler lists; a second type with two levels of embedding, a nested struct and slices of structs (nil/empty/1 element) inside and outside the embedded struct, 4 mangler lists', 'thorough': 'same'},
-        "outside": 'other config types; SingleTypeSubstitutionMangler; random sub-chains beyond the listed ones',
+        "outside": 'other config types; random sub-chains beyond the listed ones',
         "assumptions": REFLECT_ASSUME,
         "runs": [
             {"entry": M + "/transform.HarnessC10SetSlice", "pkgs": TFP, "must_reach": ["c10-setslice-end"]},
@@ -229,6 +231,7 @@ CHECKS = {
             {"entry": M + "/transform.HarnessC10Chains", "pkgs": TFP, "must_reach": ["c10-chains-end"]},
             {"entry": M + "/transform.HarnessC10Embedded", "pkgs": TFP, "must_reach": ["c10-embedded-end"]},
             {"entry": M + "/transform.HarnessC10Gen2", "pkgs": TFP, "must_reach": ["c10-gen-end"]},
+            {"entry": M + "/transform.HarnessC10TypeSubst", "pkgs": TFP, "must_reach": ["c10-typesubst-end"]},
             {"entry": M + "/transform.HarnessC10Gen3", "pkgs": TFP, "must_reach": ["c10-gen-end"], "tiers": ["thorough"]},
         ],
     },
@@ -240,6 +243,8 @@ CHECKS = {
         "runs": [
             {"entry": M + "/sources/env.HarnessC14Env", "pkgs": ENVP + ["sort"], "must_reach": ["c14-end", "c14-both-error"]},
             {"entry": M + "/sources/env.HarnessC14EnvImplicit", "pkgs": ENVP + ["sort"], "must_reach": ["c14-implicit-end", "c14-implicit-both-error"]},
+            {"entry": M + "/sources/flag.HarnessC14Flag", "pkgs": FLAGP, "must_reach": ["c14-flag-end", "c14-flag-both-error"]},
+            {"entry": M + "/sources/pflag.HarnessC14Pflag", "pkgs": PFLAGP, "must_reach": ["c14-pflag-end", "c14-pflag-both-error"]},
             {"entry": M + "/ez.HarnessC18FileKeys", "pkgs": EZP, "must_reach": ["c18-keys-end", "c18-keys-both-error"], "instrument": [M, M + "/sourcewrap", M + "/ez"], "validate": 0},
         ],
     },
